@@ -10,7 +10,7 @@ pub fn check_raw_time_windows(tws: &[Vec<String>], skip_intersection_check: bool
 
 /// Checks time window rules.
 pub fn check_time_windows(tws: &[Option<TimeWindow>], skip_intersection_check: bool) -> bool {
-    if tws.iter().any(|tw| tw.is_none()) {
+    if tws.is_empty() || tws.iter().any(|tw| tw.is_none()) {
         false
     } else {
         let mut tws = tws.iter().map(|tw| tw.clone().unwrap()).collect::<Vec<_>>();
@@ -18,7 +18,7 @@ pub fn check_time_windows(tws: &[Option<TimeWindow>], skip_intersection_check: b
             a.start <= a.end
         } else {
             tws.sort_by(|a, b| a.start.total_cmp(&b.start));
-            tws.windows(2).any(|pair| {
+            tws.windows(2).all(|pair| {
                 if let [a, b] = pair {
                     a.start <= a.end && b.start <= b.end && (skip_intersection_check || !a.intersects(b))
                 } else {
